@@ -201,11 +201,11 @@ def process_includes(lualines, filename=None):
                 inc_game = p8_fmt_cls.from_file(
                     fh, filename=inc_full_path, do_includes=False)
                 for line in lines_for_tab(inc_game.lua.to_lines(), inc_tab):
-                    yield line
+                    yield line if line.endswith(b'\n') else line + b'\n'
         else:
             with open(inc_full_path, 'rb') as fh:
                 for line in fh:
-                    yield line
+                    yield line if line.endswith(b'\n') else line + b'\n'
 
 
 class P8Formatter(BaseFormatter):
